@@ -47,6 +47,29 @@ type FieldSpec struct {
 	Metric string
 	Opt    string
 	Vec    []int
+	TV     string // "" = the term-vector option follows the locations; "0"/"1" = stated explicitly
+	Rnd    string // "seed:len" = Val is the pseudo-random byte string of that seed and length
+	Shape  []byte // geo-shape fields: the encoded shape (kept as an extra doc value)
+}
+
+// rndBytes: the pseudo-random (incompressible) byte string both sides of the transcript agree on:
+// x' = (x*1103515245 + 12345) mod 2^31, byte = (x' >> 16) & 0xff.
+func rndBytes(seed, n int) []byte {
+	out := make([]byte, n)
+	x := uint64(seed) % (1 << 31)
+	for i := range out {
+		x = (x*1103515245 + 12345) % (1 << 31)
+		out[i] = byte(x >> 16)
+	}
+	return out
+}
+
+func parseRnd(s string) (int, int, bool) {
+	var seed, n int
+	if _, err := fmt.Sscanf(s, "%d:%d", &seed, &n); err != nil {
+		return 0, 0, false
+	}
+	return seed, n, true
 }
 
 type DocSpec struct {
@@ -193,10 +216,25 @@ func (b *BatchSpec) Lines() []string {
 		for _, f := range d.Fields {
 			switch f.Kind {
 			case "comp":
-				out = append(out, fmt.Sprintf("comp %s len=%d dv=%s", f.Name, f.Len, b01(f.DV)))
+				l := fmt.Sprintf("comp %s len=%d dv=%s", f.Name, f.Len, b01(f.DV))
+				if f.TV != "" {
+					l += " tv=" + f.TV
+				}
+				out = append(out, l)
 			case "fld":
-				out = append(out, fmt.Sprintf("fld %s typ=%d st=%s dv=%s len=%d ap=%s val=%s",
-					f.Name, f.Typ, b01(f.Stored), b01(f.DV), f.Len, u64List(f.AP, ","), hx(f.Val)))
+				val := hx(f.Val)
+				if f.Rnd != "" {
+					val = "rnd:" + f.Rnd
+				}
+				l := fmt.Sprintf("fld %s typ=%d st=%s dv=%s len=%d ap=%s val=%s",
+					f.Name, f.Typ, b01(f.Stored), b01(f.DV), f.Len, u64List(f.AP, ","), val)
+				if f.TV != "" {
+					l += " tv=" + f.TV
+				}
+				if f.Shape != nil {
+					l += " shape=" + hx(f.Shape)
+				}
+				out = append(out, l)
 			case "syn":
 				out = append(out, "syn "+f.Name)
 				for _, sd := range f.Defs {
@@ -312,19 +350,34 @@ func parseBatch(cmds []*Cmd, i int) (*BatchSpec, int, error) {
 			doc = &b.Docs[len(b.Docs)-1]
 			fld = nil
 		case "comp":
-			doc.Fields = append(doc.Fields, FieldSpec{Kind: "comp", Name: c.Pos[0], Len: c.num("len", 0), DV: c.str("dv", "0") == "1", Typ: 'c'})
+			doc.Fields = append(doc.Fields, FieldSpec{Kind: "comp", Name: c.Pos[0], Len: c.num("len", 0), DV: c.str("dv", "0") == "1", Typ: 'c', TV: c.str("tv", "")})
 			fld = &doc.Fields[len(doc.Fields)-1]
 		case "fld":
 			ap, err := parseU64List(c.str("ap", "-"), ",")
 			if err != nil {
 				return nil, i, err
 			}
-			val, err := unhx(c.str("val", "."))
-			if err != nil {
+			var val []byte
+			rnd := ""
+			if vs := c.str("val", "."); strings.HasPrefix(vs, "rnd:") {
+				rnd = strings.TrimPrefix(vs, "rnd:")
+				seed, n, ok := parseRnd(rnd)
+				if !ok {
+					return nil, i, fmt.Errorf("bad rnd value %q", vs)
+				}
+				val = rndBytes(seed, n)
+			} else if val, err = unhx(vs); err != nil {
 				return nil, i, err
 			}
+			var shape []byte
+			if sh := c.str("shape", ""); sh != "" {
+				if shape, err = unhx(sh); err != nil {
+					return nil, i, err
+				}
+			}
 			doc.Fields = append(doc.Fields, FieldSpec{Kind: "fld", Name: c.Pos[0], Typ: byte(c.num("typ", 't')),
-				Stored: c.str("st", "0") == "1", DV: c.str("dv", "0") == "1", Len: c.num("len", 0), AP: ap, Val: val})
+				Stored: c.str("st", "0") == "1", DV: c.str("dv", "0") == "1", Len: c.num("len", 0), AP: ap, Val: val,
+				TV: c.str("tv", ""), Rnd: rnd, Shape: shape})
 			fld = &doc.Fields[len(doc.Fields)-1]
 		case "syn":
 			doc.Fields = append(doc.Fields, FieldSpec{Kind: "syn", Name: c.Pos[0]})
